@@ -350,41 +350,50 @@ def run_verus(path, seed=None, rlimit=None, timeout=600, extra=None):
 
 
 def classify_diags(res, text, labels, ranges):
-    """Map Verus errors to obligations. Returns (failed {key: [msgs]}, hard_errors [msgs])."""
+    """Map Verus errors to obligations. Returns (failed {key: [msgs]}, hard_errors [msgs]).
+    Only spans inside the generated file are used (a postcondition inherited from a vstd trait
+    spec has its primary span in vstd; the span 'at the end of the function body' is ours)."""
     failed, hard = {}, []
+    gen_name = os.path.basename(res["cmd"].split()[1])
     for d in res["diags"]:
         if d.get("level") != "error":
             continue
         msg = d.get("message", "")
         if msg.startswith("aborting due to"):
             continue
-        spans = d.get("spans", [])
-        prim = [s for s in spans if s.get("is_primary")] or spans
+        spans = [s for s in d.get("spans", []) if os.path.basename(s.get("file_name", "")) == gen_name]
+        foreign = [s for s in d.get("spans", []) if s not in spans]
+        prim = [s for s in spans if s.get("is_primary")]
+        ordered = prim + [s for s in spans if not s.get("is_primary")]
         if not any(msg.startswith(v) or v in msg for v in VERIFICATION_ERRORS):
-            where = f" at generated line {prim[0]['line_start']}: {prim[0]['text'][0]['text'].strip() if prim and prim[0].get('text') else ''}" if prim else ""
+            where = f" at generated line {ordered[0]['line_start']}: {ordered[0]['text'][0]['text'].strip() if ordered[0].get('text') else ''}" if ordered else ""
             hard.append(msg + where)
             continue
         # a labelled span wins (primary first), else the enclosing function
         key = None
-        for s in prim + [s for s in spans if not s.get("is_primary")]:
-            for ln in range(s["line_start"], s["line_end"] + 1):
+        for s in ordered:
+            # a clause may span lines (primary); a secondary span such as "at the end of the
+            # function body" covers the whole body and must not be searched for labels
+            for ln in range(s["line_start"], (s["line_end"] if s.get("is_primary") else s["line_start"]) + 1):
                 if ln in labels:
                     key = ("label", ln)
                     break
             if key:
                 break
-        if not key and prim:
-            ln = prim[0]["line_start"]
+        if not key and ordered:
+            ln = ordered[0]["line_start"]
             for (a, b, name, mode) in ranges:
                 if a <= ln <= b:
-                    key = ("fn", name)
+                    key = ("fn", a)
                     break
         if not key:
-            hard.append(msg + " (span outside any function)")
+            hard.append(msg + " (no span inside the generated file)")
             continue
         desc = msg
-        if prim and prim[0].get("text"):
-            desc += f" @gen:{prim[0]['line_start']}: " + prim[0]["text"][0]["text"].strip()
+        if ordered and ordered[0].get("text"):
+            desc += f" @gen:{ordered[0]['line_start']}: " + ordered[0]["text"][0]["text"].strip()
+        for s in foreign:
+            desc += f" [{s.get('label') or 'see'} {s.get('file_name')}:{s.get('line_start')}]"
         failed.setdefault(key, []).append(desc)
     return failed, hard
 
@@ -467,13 +476,15 @@ def run_unit(unit, pid, tier, seed):
                 "gen_line": ln,
             }
         )
-    # function-level obligations (callee preconditions, overflow, unlabelled asserts)
-    fn_has_label = {}
+    # function-level obligations (callee preconditions, overflow, unlabelled asserts, and
+    # postconditions inherited from a vstd trait spec such as From::from == from_spec)
     for (a, b, name, mode) in ranges:
         ps = None
-        for sl, (fid, props_s) in gen["fn_props"].items():
+        fid = None
+        for sl, (xid, props_s) in gen["fn_props"].items():
             if a == sl:
                 ps = props_s.split("+") if props_s else []
+                fid = xid
         lab_here = [labels[l] for l in range(a, b + 1) if l in labels]
         if ps is None:
             # static (template) function: belongs to the properties of the labels inside it
@@ -483,36 +494,34 @@ def run_unit(unit, pid, tier, seed):
         if pid not in ps:
             continue
         # do not count external_body stubs as proved
-        head = "\n".join(text.split("\n")[max(0, a - 4) : a])
-        if "external_body" in head or "external_body" in text.split("\n")[a - 1]:
+        head = "\n".join(text.split("\n")[max(0, a - 3) : a])
+        if "external_body" in head:
             continue
-        bad = ("fn", name) in failed
+        bad = ("fn", a) in failed
+        flabel = f"{fid or name}/body"
         obligations.append(
             {
-                "id": f"verus:{unit}:{name}/body",
-                "label": f"{name}/body",
+                "id": f"verus:{unit}:{flabel}",
+                "label": flabel,
                 "engine": "verus",
                 "unit": unit,
                 "backend": backend,
-                "kind": "function-body (callee preconditions, panics, overflow, unlabelled asserts)",
+                "kind": "function-body (callee preconditions, panics, overflow, unlabelled asserts, inherited trait postconditions)",
                 "status": "FAILED" if bad else "VERIFIED",
                 "ok": not bad,
                 "bad": bad,
-                "detail": {"errors": failed.get(("fn", name), [])},
+                "detail": {"errors": failed.get(("fn", a), [])},
                 "gen_line": a,
             }
         )
-    # failures in obligations that belong to no claimed property of this unit run still count:
-    # attach them to pid if their function/label is unowned
-    owned = {("label", o["gen_line"]) for o in obligations if o["kind"] == "clause"} | {("fn", o["label"][:-5]) for o in obligations if o["kind"] != "clause"}
-    for k, v in failed.items():
-        if k in owned:
-            continue
-        if k[0] == "label" and pid not in labels[k[1]][0]:
-            continue  # belongs to another property; that property's check reports it
-        if k[0] == "fn":
-            # function not owned by pid
-            continue
+    # a verification error inside a function that no property of this unit owns would be lost:
+    # every function with a failure must be owned by some property
+    all_owned_lines = set(gen["fn_props"].keys())
+    for k in failed:
+        if k[0] == "fn" and k[1] not in all_owned_lines:
+            lab_in = [labels[l] for (a2, b2, n2, m2) in ranges if a2 == k[1] for l in range(a2, b2 + 1) if l in labels]
+            if not lab_in:
+                problems.append(f"verification error in unowned function at generated line {k[1]}: {failed[k][0]}")
     return {
         "engine": "verus",
         "unit": unit,
